@@ -475,9 +475,23 @@ func (in *Interp) checkStrong(extra []*Term) (Result, map[string]uint64) {
 	}
 	res, m := in.query(extra, time.Duration(in.cfg.assertTimeoutS)*time.Second)
 	if res == Unsat && in.cfg.crossCheck {
+		// second opinion on a persistent pipe of the other solver (one process per worker; spawning a solver per
+		// assertion made thorough runs of 10^5 assertions take hours); identical queries are not asked twice
 		cons, _ := in.slice(extra)
-		r2, _, _ := in.solver.CheckOneShot(append(append([]*Term(nil), cons...), extra...), nil, nil, time.Duration(in.cfg.assertTimeoutS)*time.Second, in.cfg.crossSolver)
-		in.crossChecked++
+		all := append(append([]*Term(nil), cons...), extra...)
+		key := in.crossKey(all)
+		r2, seen := in.crossCache[key]
+		if !seen {
+			if in.cross == nil {
+				in.cross = NewSolverBin(in.cfg.crossSolver, 20000)
+			}
+			r2, _ = in.cross.CheckSet(all, nil)
+			if in.crossCache == nil {
+				in.crossCache = map[string]Result{}
+			}
+			in.crossCache[key] = r2
+			in.crossChecked++
+		}
 		if r2 == Sat {
 			in.cs.Inconclusive = append(in.cs.Inconclusive, "solver disagreement: pipe solver unsat vs "+in.cfg.crossSolver+" sat at "+in.where())
 			return Unknown, nil
@@ -487,6 +501,19 @@ func (in *Interp) checkStrong(extra []*Term) (Result, map[string]uint64) {
 		return res, m.vals
 	}
 	return res, nil
+}
+
+func (in *Interp) crossKey(ts []*Term) string {
+	ids := make([]int, len(ts))
+	for i, t := range ts {
+		ids[i] = t.id
+	}
+	sort.Ints(ids)
+	var sb strings.Builder
+	for _, id := range ids {
+		fmt.Fprintf(&sb, "%d,", id)
+	}
+	return sb.String()
 }
 
 func (in *Interp) recordViolation(m *Model, msg, kind, site string, knowns []string) {
